@@ -87,6 +87,14 @@ def make_case(ctx: Ctx, backend: str, i: int, opts) -> Optional[Dict[str, Any]]:
                                       (f"((e.{C}('A').Count() > 1) if e.{C}('B').Count() > 0 else (e.{C}('A').Count() > 2))", "scalar"),
                                       (f"e.{C}('A').Select(lambda q: q.hits().Select(lambda h: h if h > 2 else 0 - h))", "list2"),
                                       (f"e.{C}('A').Select(lambda q: q.isGood() if q.pt() > 20.0 else q.hasLead())", "list")]) + (None,))
+        elif r > 0.79:
+            # integer operands whose result is not an integer (a power with an exponent negative at run time, a real division):
+            # the column has to hold the value the expression has
+            if rows == "object":
+                cols.append((R.choice(["((j.nTrk() + 2) ** -1)", "(2 ** (0 - j.nTrk() - 1))", "(j.nTrk() / 4)", "((j.nTrk() + 1) ** (j.nTrk() - 3))", "(True / 4)"]), "scalar", None))
+            else:
+                cols.append(R.choice([(f"((e.{C}('A').Count() + 1) ** -1)", "scalar"), (f"e.{C}('A').Select(lambda q: (q.nTrk() + 2) ** -2)", "list"), (f"(e.{C}('A').Count() / 8)", "scalar"),
+                                      (f"e.{C}('A').Select(lambda q: q.hits().Select(lambda h: (h + 1) ** -1))", "list2")]) + (None,))
         elif r < 0.35:
             # bare declared member: exact type expected
             if rows == "object":
